@@ -51,6 +51,14 @@ func optRuns() []optRun {
 		mk("simple points + rects, index 1/1", "repr", func(p *geojson.ParseOptions) {
 			p.AllowSimplePoints, p.AllowRects, p.IndexChildren, p.IndexGeometry = true, true, 1, 1
 		}),
+		// the same representation / index options with the Circle convention switched off: compared with each other
+		mk("no circle type", "dbase", func(p *geojson.ParseOptions) { p.DisableCircleType = true }),
+		mk("no circle type + simple points + rects", "drepr", func(p *geojson.ParseOptions) {
+			p.DisableCircleType, p.AllowSimplePoints, p.AllowRects = true, true, true
+		}),
+		mk("no circle type + index 1/1 rtree", "dindex", func(p *geojson.ParseOptions) {
+			p.DisableCircleType, p.IndexChildren, p.IndexGeometry, p.IndexGeometryKind = true, 1, 1, geometry.RTree
+		}),
 		mk("require valid", "rv", func(p *geojson.ParseOptions) { p.RequireValid = true }),
 		mk("require valid + simple points + rects + rtree 1/1", "rv", func(p *geojson.ParseOptions) {
 			p.RequireValid, p.AllowSimplePoints, p.AllowRects, p.IndexChildren, p.IndexGeometry, p.IndexGeometryKind = true, true, true, 1, 1, geometry.RTree
